@@ -99,6 +99,36 @@ impl Config {
             order.swap(i, rng.below(i + 1));
         }
         let mut b = QRBuilder::new(self.input.clone());
+        // A quarter of the builders have been USED before: some of the options that are going to be set are first
+        // set to other values, the builder is built (result discarded), and only then do the real values follow.
+        // Options left automatic are never touched (the API cannot unset them), so the final state is exactly this
+        // configuration; a builder that keeps anything from its earlier build() would show here, in every check.
+        if rng.chance(1, 4) {
+            let mut touched = false;
+            if let Some(l) = self.level {
+                if rng.chance(2, 3) {
+                    b.ecl(LEVELS[(l + 1 + rng.below(3)) % 4]);
+                    touched = true;
+                }
+            }
+            if self.mode.is_some() && rng.chance(1, 2) {
+                b.mode(MODES[2]);
+                touched = true;
+            }
+            if self.version.is_some() && rng.chance(1, 2) {
+                b.version(VERSIONS[rng.below(40)]);
+                touched = true;
+            }
+            if let Some(m) = self.mask {
+                if rng.chance(1, 2) {
+                    b.mask(MASKS[(m + 1 + rng.below(7)) % 8]);
+                    touched = true;
+                }
+            }
+            if touched {
+                let _ = b.build();
+            }
+        }
         for which in order {
             let decoy = rng.chance(1, 3);
             match which {
@@ -271,8 +301,13 @@ impl Recorded {
 
 /// Build with the candidate recorder hook armed; returns what the selection loop reported.
 pub fn build_recorded(cfg: &Config) -> (Outcome, Vec<Recorded>) {
+    // the builder (and whatever earlier build its history contains) is prepared BEFORE the recorder is armed
+    let b = match guarded(|| cfg.builder()) {
+        Ok(b) => b,
+        Err(p) => return (Outcome::Panic(p), vec![]),
+    };
     fast_qr::verif_hooks::start();
-    let out = build(cfg);
+    let out = outcome_of(guarded(|| b.build()));
     let rec = fast_qr::verif_hooks::take()
         .into_iter()
         .map(|c| Recorded { mask: mask_no(c.mask), score: c.score, size: c.size, modules: c.modules })
